@@ -175,6 +175,58 @@ def run(prog, ctx):
             res.discharged += 1
         else:
             res.violate("C09.N", "C09.N|%s|recount" % nm, "%s does not recount the set bits of every word (stores %s)" % (nm, [show(e)[:60] for e in fin]), f.id)
+    # C09.N (who-writes pairing): whenever a BloomFilter method takes the bit array mutably, every path from there to a return
+    # stores the bit count (or calls a method that does): bits and count never drift apart
+    count_writers = set()
+    for f in prog.fns.values():
+        if not f.promoted and any(True for _ in sym.field_stores(prog, adt=B, field="num_bits_set", fns=[f])):
+            count_writers.add(f.id)
+    n_w = 0
+    for f in [x for x in prog.fns.values() if not x.promoted and x.owner == B]:
+        muts = set()
+
+        def on_bits(pl, alias):
+            return (not isinstance(pl, int)) and ((pl[0] == 1 and any(p[0] == "." and p[2] == "bit_array" for p in pl[1])) or (pl[0] in alias and any(p[0] == "*" for p in pl[1])))
+        alias = set()       # locals holding a copy of the Box pointer of self.bit_array
+        changed = True
+        while changed:
+            changed = False
+            for b in f.blocks:
+                for st in b.stmts:
+                    if st[0] != "=" or not isinstance(st[1], int) or st[1] in alias or st[2][0] not in ("use", "cast"):
+                        continue
+                    op = st[2][1] if st[2][0] == "use" else st[2][2]
+                    if op[0] not in ("c", "m"):
+                        continue
+                    pl = op[1]
+                    base = pl if isinstance(pl, int) else pl[0]
+                    if on_bits(pl, ()) or base in alias:
+                        alias.add(st[1])
+                        changed = True
+        for b in f.blocks:
+            if b.cleanup:
+                continue
+            for st in b.stmts:
+                if st[0] == "=" and st[2][0] == "ref" and st[2][1] == "mut" and on_bits(st[2][2], alias):
+                    muts.add(b.idx)
+                if st[0] == "=" and on_bits(st[1], alias):
+                    muts.add(b.idx)
+        if not muts or f.argc < 1 or not f.local_ty(1).startswith("&mut"):
+            continue
+        sf = Sym(prog, f, ifconv=False)
+        counted = set(b for (ff, b, kind, place, rv, span, adt, fld) in sym.field_stores(prog, adt=B, field="num_bits_set", fns=[f]))
+        for b, site in f.calls():
+            tgt = site.get("callee")
+            if tgt and tgt in prog.fns and (tgt in count_writers or any(g.id in count_writers for g in C.reach_from(prog, [tgt]))):
+                counted.add(b)
+        for m in sorted(muts):
+            n_w += 1
+            res.obligations += 1
+            if m in counted or not any(sf.reaches_exit_avoiding(sx, counted) for sx in f.succs(m) if not f.blocks[sx].cleanup):
+                res.discharged += 1
+            else:
+                res.violate("C09.N", "C09.N|%s|unpaired-write" % f.id, "%s can change the bit array and return without updating num_bits_set" % f.id, f.id)
+    res.rule("C09.W", n_w, 3, "mutable uses of the bit array paired with a count update")
     inv = C.pub_fn(prog, B, "invert")
     if inv is not None:
         s = Sym(prog, inv)
